@@ -201,10 +201,73 @@ def run(ctx) -> None:
                     okf = okf and any(e is w[0] or (isinstance(e, ast.Call) and call_name(e).endswith(("find_bk_vectors", "get_shell_weights"))) for e in sl)
             r1.check(okf, f"{mname}: weights and b-vectors of the object come from the checked solver", m, ctor[0] if ctor else m.node,
                      f"{mname} builds the BKVectors object from weights/vectors that did not pass get_shell_weights")
+            # …and the *whole* checked set: completeness Σ_b w_b b bᵀ = 1 holds for the set the solver returned, not for a subset selected afterwards
+            if okf:
+                for fld in ("wk", "bk_grid"):
+                    sl, _, _ = mdu.backward_slice(kw[fld], mdu.node_of_expr(ctor[0]))
+                    for e_ in sl:
+                        for x_ in ast.walk(e_):
+                            if isinstance(x_, ast.Subscript) and isinstance(x_.value, ast.Name) and not isinstance(x_.slice, (ast.Constant, ast.Slice)):
+                                vs_, _, _ = mdu.backward_slice(x_.value, mdu.node_of_expr(ctor[0]))
+                                from_solver = any(isinstance(q_, ast.Call) and call_name(q_).endswith(("find_bk_vectors", "get_shell_weights")) for q_ in vs_)
+                                mexp_ = x_.slice
+                                if isinstance(mexp_, ast.Name):
+                                    try:
+                                        d1_ = mdu.single_def(mexp_.id, mdu.node_of_expr(x_))
+                                    except AnalysisError:
+                                        d1_ = None
+                                    mexp_ = d1_.value if d1_ is not None and d1_.kind == "assign" and d1_.value is not None else mexp_
+                                is_mask = isinstance(mexp_, ast.Compare) or (isinstance(mexp_, ast.BinOp) and isinstance(mexp_.op, (ast.BitAnd, ast.BitOr))) or \
+                                    (isinstance(mexp_, ast.UnaryOp) and isinstance(mexp_.op, ast.Invert)) or \
+                                    (isinstance(mexp_, ast.Call) and call_name(mexp_) in ("np.logical_and", "np.logical_or", "np.logical_not", "np.isclose", "np.where", "np.nonzero", "np.flatnonzero"))
+                                if from_solver and is_mask:
+                                    r1.violation(m, ctor[0], f"{mname}: `{norm1(x_)}` keeps only part of the b-vectors / weights returned by the solver (`{fld}`): the completeness "
+                                                 f"relation was verified for the full set (shells with negative weights occur for skewed cells), so the stored set "
+                                                 f"no longer satisfies it")
 
     # ---------------------------------------------------------------- R22.2 (continued)
     fb = c.methods["find_bk_vectors"]
     FS = Sem(idx, fb)
+    # the shells are kept twice, in Cartesian and in lattice coordinates; both lists go into get_shell_weights together and the lattice one becomes
+    # the returned grid vectors: every block of statements must change the two lists in the same way
+    pair = None
+    for c_ in ast.walk(fb.node):
+        if isinstance(c_, ast.Call) and call_name(c_).endswith("get_shell_weights") and len(c_.args) >= 2:
+            bases = []
+            for a_ in c_.args[:2]:
+                a_ = a_.left if isinstance(a_, ast.BinOp) and isinstance(a_.op, ast.Add) else a_
+                a_ = FS.resolve(a_, FS.du.node_of_expr(c_)) if isinstance(a_, ast.Name) and a_.id not in FS._mutated else a_
+                a_ = a_.left if isinstance(a_, ast.BinOp) and isinstance(a_.op, ast.Add) else a_
+                bases.append(a_.id if isinstance(a_, ast.Name) else None)
+            if all(bases) and bases[0] != bases[1]:
+                pair = tuple(bases)
+    if pair is not None:
+        r2.instance(f"{fb.short}: parallel shell lists {pair}")
+
+        def ops(block):
+            cnt = {pair[0]: [], pair[1]: []}
+            for st_ in block:
+                if isinstance(st_, ast.Expr) and isinstance(st_.value, ast.Call) and isinstance(st_.value.func, ast.Attribute) and isinstance(st_.value.func.value, ast.Name) \
+                        and st_.value.func.value.id in cnt and st_.value.func.attr in ("append", "pop", "extend", "insert", "clear", "remove"):
+                    cnt[st_.value.func.value.id].append(st_.value.func.attr)
+                elif isinstance(st_, ast.AugAssign) and isinstance(st_.target, ast.Name) and st_.target.id in cnt:
+                    cnt[st_.target.id].append("+=")
+                elif isinstance(st_, ast.Delete) and any(isinstance(t_, ast.Subscript) and isinstance(t_.value, ast.Name) and t_.value.id in cnt for t_ in st_.targets):
+                    for t_ in st_.targets:
+                        if isinstance(t_, ast.Subscript) and isinstance(t_.value, ast.Name) and t_.value.id in cnt:
+                            cnt[t_.value.id].append("del")
+            return cnt
+        blocks = [fb.node.body] + [getattr(n_, f_) for n_ in ast.walk(fb.node) for f_ in ("body", "orelse", "finalbody") if n_ is not fb.node
+                                   and isinstance(getattr(n_, f_, None), list) and getattr(n_, f_) and isinstance(getattr(n_, f_)[0], ast.stmt)]
+        bad_blk = None
+        for blk in blocks:
+            o_ = ops(blk)
+            if sorted(o_[pair[0]]) != sorted(o_[pair[1]]):
+                bad_blk = (blk, o_)
+                break
+        r2.check(bad_blk is None, "the Cartesian and the lattice shell list are changed together in every block", fb, bad_blk[0][0] if bad_blk else fb.node,
+                 f"a block changes `{pair[0]}` by {bad_blk[1][pair[0]] if bad_blk else None} but `{pair[1]}` by {bad_blk[1][pair[1]] if bad_blk else None}: from then on "
+                 f"the two lists describe different shells, the weights are solved for one set and the returned grid vectors come from the other")
     r2.instance(f"{fb.short}: search box")
     verdict, how = _search_box(fb, FS)
     if verdict is None:
